@@ -160,7 +160,9 @@ class HTTP(BaseComponent):
                 del self._clients[sock]
             res.done = True
             return
-        if res.stream and res.body:
+        if res.stream and res.body and not isinstance(res.body, list):
+            # only an iterator is streamed; a complete body (list of strings,
+            # Content-Length already set by prepare()) is written at once below
             try:
                 data = next(res.body)
                 while not data:  # Skip over any null byte sequences
